@@ -267,7 +267,9 @@ func GenGrammarStage(t *rapid.T) gen.Stage {
 			st.Labels = genIdents(t, "gs-parser-labels", 0, 3)
 			n := rapid.IntRange(0, 2).Draw(t, "gs-nexprs")
 			for i := 0; i < n; i++ {
-				st.Exprs = append(st.Exprs, gen.KV{Label: genIdent(t, "gs-expr-label"), Expr: rapid.SampledFrom([]string{"a.b", "a[0]", `["k"]`, "x", "a.b[1].c", "some key"}).Draw(t, "gs-expr")})
+				st.Exprs = append(st.Exprs, gen.KV{Label: genIdent(t, "gs-expr-label"), Expr: rapid.SampledFrom([]string{"a.b", "a[0]", `["k"]`, "x", "a.b[1].c", "some key",
+					// expressions that are nearly nothing: a lone quote, an empty pair, an unterminated one
+					`"`, `""`, `"a`, `a"`, `\`, "", " ", "[", "]", ".", `"\"`, "'"}).Draw(t, "gs-expr")})
 			}
 		}
 		return st
